@@ -51,6 +51,7 @@ class Monitor:
         self.layer = 'direct'
         self.context: dict = {}
         self.last = None
+        self.effective_now = None
         from dashlive.mpeg.dash import timing as tmod
         self.tmod = tmod
         self.orig = tmod.DashTiming.__init__
@@ -68,6 +69,10 @@ class Monitor:
     def observe(self, t, now, options) -> None:
         res = self.res
         self.last = t
+        if self.layer == 'http' and self.effective_now is not None:
+            # drift=N asks for the manifest as it was N seconds ago: whoever applies the drift, the object
+            # a manifest request builds must be coherent for that instant
+            now = self.effective_now
         if t.mode != 'live':
             res.count('post.static')
             return
@@ -305,6 +310,11 @@ def run_http(ctx: ShardCtx, res: ShardResult, mon: Monitor) -> None:
                                         allow_events=False)
             params.pop('patch', None)
             env.clock.set(now)
+            drift = 0
+            if ctx.rng.random() < 0.3:
+                drift = ctx.rng.choice([5, 10, 30, 59, 61, 90, 3600, -3])
+                params['drift'] = str(drift)
+            mon.effective_now = now - datetime.timedelta(seconds=drift)
             mon.context = {'params': params, 'manifest': manifest}
             mon.last = None
             url = f'/dash/live/bbb/{manifest}' + qs(params)
